@@ -17,6 +17,7 @@ DigitsOf(n) == IF n < 10 THEN <<48 + n>> ELSE DigitsOf(n \div 10) \o <<48 + (n %
 ZPad(n, w) == LET d == DigitsOf(n) IN IF Len(d) >= w THEN d ELSE [i \in 1..(w - Len(d)) |-> 48] \o d
 RJust(s, w) == IF Len(s) >= w THEN s ELSE [i \in 1..(w - Len(s)) |-> SP] \o s
 Spaces(n) == [i \in 1..n |-> SP]
+LJust(s, w) == IF Len(s) >= w THEN s ELSE s \o [i \in 1..(w - Len(s)) |-> SP]
 Zeros(n) == [i \in 1..n |-> 0]
 Rev(s) == [i \in 1..Len(s) |-> s[Len(s) + 1 - i]]
 RECURSIVE Concat(_)
@@ -30,7 +31,10 @@ Max(a, b) == IF a > b THEN a ELSE b
 KeyP(n, suffix) == <<36, 80>> \o DigitsOf(n) \o <<suffix>>          \* "$P<n><suffix>"
 VerStr(v) == CASE v = "2.0" -> A_FCS20 [] v = "3.0" -> A_FCS30 [] v = "3.1" -> A_FCS31 [] OTHER -> <<88>>
 BoStr(b) == CASE b = "4321" -> A_BO4321 [] b = "21" -> A_BO21 [] b = "1234" -> A_BO1234
-              [] b = "12" -> A_BO12 [] OTHER -> A_BO3412
+              [] b = "12" -> A_BO12
+              [] b = "1324" -> <<49, 44, 51, 44, 50, 44, 52>> [] b = "4231" -> <<52, 44, 50, 44, 51, 44, 49>>      \* ends look right, middle swapped
+              [] b = "2143" -> <<50, 44, 49, 44, 52, 44, 51>> [] b = "4441" -> <<52, 44, 52, 44, 52, 44, 49>>
+              [] OTHER -> A_BO3412
 BoBig(b) == b \in {"4321", "21"}
 OneChar(c) == CASE c = "L" -> A_L [] c = "H" -> A_H [] c = "I" -> A_I [] c = "F" -> A_F
                 [] c = "D" -> A_D [] OTHER -> A_A
@@ -82,11 +86,13 @@ ParPairs(lay, flt) ==
         <<KeyP(p, 78), <<97>> \o DigitsOf(p)>>,
         <<KeyP(p, 69), A_LIN>> >>])
 
+(* offsets in TEXT are fixed-width fields: zero-padded, or blank-padded on either side (all three occur in real files) *)
+OffText(lay, n) == CASE lay.onum = "right" -> RJust(DigitsOf(n), 8) [] lay.onum = "left" -> LJust(DigitsOf(n), 8) [] OTHER -> ZPad(n, 8)
 TextPairs(lay, flt, o) ==
   (IF IsV3(lay.ver)
-   THEN << <<A_BEGINANALYSIS, ZPad(IF lay.an = "text" THEN o.ab ELSE 0, 8)>>, <<A_ENDANALYSIS, ZPad(IF lay.an = "text" THEN o.ae ELSE 0, 8)>>,
-           <<A_BEGINSTEXT, ZPad(FV(flt, "t_sb", o.sb), 8)>>, <<A_ENDSTEXT, ZPad(FV(flt, "t_se", o.se), 8)>>,
-           <<A_BEGINDATA, ZPad(FV(flt, "t_db", o.db), 8)>>, <<A_ENDDATA, ZPad(FV(flt, "t_de", o.de), 8)>> >>
+   THEN << <<A_BEGINANALYSIS, OffText(lay, IF lay.an = "text" THEN o.ab ELSE 0)>>, <<A_ENDANALYSIS, OffText(lay, IF lay.an = "text" THEN o.ae ELSE 0)>>,
+           <<A_BEGINSTEXT, OffText(lay, FV(flt, "t_sb", o.sb))>>, <<A_ENDSTEXT, OffText(lay, FV(flt, "t_se", o.se))>>,
+           <<A_BEGINDATA, OffText(lay, FV(flt, "t_db", o.db))>>, <<A_ENDDATA, OffText(lay, FV(flt, "t_de", o.de))>> >>
    ELSE <<>>)
   \o << <<A_BYTEORD, BoStr(lay.bo)>>, <<A_DATATYPE, OneChar(lay.dt)>>, <<A_MODE, OneChar(lay.mode)>>,
         <<A_NEXTDATA, DigitsOf(lay.nx)>>, <<A_PAR, ZPad(FV(flt, "par", Len(lay.widths)), 4)>>,
